@@ -238,6 +238,20 @@ func runC06(c *Ctx, r *Run) {
 							ok = true
 						}
 					}
+					// `len(previousHash) == 0`: the same test on a slice
+					if bo, isBo := gov.Cond.(*ssa.BinOp); isBo && (bo.Op == token.EQL || bo.Op == token.NEQ) {
+						for _, side := range [][2]ssa.Value{{bo.X, bo.Y}, {bo.Y, bo.X}} {
+							if k, isK := constInt(side[1]); isK && k == 0 {
+								if call, isCall := side[0].(*ssa.Call); isCall {
+									if bi, isB := call.Call.Value.(*ssa.Builtin); isB && bi.Name() == "len" {
+										if lk, isLk := resolveLoad(call.Call.Args[0]).(*ssa.Lookup); isLk && containsField(paramFields(chk, lk.X), hashesName) {
+											ok = true
+										}
+									}
+								}
+							}
+						}
+					}
 				}
 				if !ok {
 					cond := "?"
